@@ -98,6 +98,9 @@ func genMutants(repo string, files []string, ranges map[string][][2]int, max int
 		}
 	}
 	inRange := func(rel string, line int) bool {
+		if os.Getenv("SWEEP_WHOLE") != "" {
+			return true // the cross-property sweep looks at the whole anchored files
+		}
 		rs := ranges[rel]
 		if len(rs) == 0 {
 			return true
@@ -190,6 +193,15 @@ func genMutants(repo string, files []string, ranges map[string][][2]int, max int
 			}
 			if as, ok := n.(*ast.AssignStmt); ok && (as.Tok == token.ADD_ASSIGN || as.Tok == token.SUB_ASSIGN) {
 				counts["assign-op"]++
+			}
+			if is, ok := n.(*ast.IfStmt); ok && is.Else != nil {
+				counts["del-else"]++
+			}
+			if rs, ok := n.(*ast.ReturnStmt); ok && len(rs.Results) >= 2 {
+				counts["ret-swap"]++
+			}
+			if fd, ok := n.(*ast.FuncDecl); ok && fd.Body != nil {
+				counts["param-swap"] += len(paramSwapSites(fd))
 			}
 			return true
 		})
@@ -333,6 +345,23 @@ func genMutants(repo string, files []string, ranges map[string][][2]int, max int
 							if hit() {
 								desc = fmt.Sprintf("%s:%d delete guard (if with a single return/branch/call)", rel, fs.Position(is.Pos()).Line)
 								is.Cond = &ast.Ident{Name: "false"}
+							}
+						}
+					}
+					if is, ok := n.(*ast.IfStmt); ok && kind == "del-else" && is.Else != nil && hit() {
+						desc = fmt.Sprintf("%s:%d delete else branch", rel, fs.Position(is.Else.Pos()).Line)
+						is.Else = nil
+					}
+					if rs, ok := n.(*ast.ReturnStmt); ok && kind == "ret-swap" && len(rs.Results) >= 2 && hit() {
+						rs.Results[0], rs.Results[1] = rs.Results[1], rs.Results[0]
+						desc = fmt.Sprintf("%s:%d swap the first two results", rel, fs.Position(rs.Pos()).Line)
+					}
+					if fd, ok := n.(*ast.FuncDecl); ok && kind == "param-swap" && fd.Body != nil {
+						for _, st := range paramSwapSites(fd) {
+							if hit() {
+								desc = fmt.Sprintf("%s:%d %s -> %s (another parameter of the same type)", rel, fs.Position(st.id.Pos()).Line, st.id.Name, st.to)
+								st.id.Name = st.to
+								break
 							}
 						}
 					}
@@ -544,4 +573,72 @@ func runSweep(c *Ctx, spec *propSpec, seed int64) {
 		"survivors": survivors,
 		"files":     files,
 	}
+}
+
+type paramSwapSite struct {
+	id *ast.Ident
+	to string
+}
+
+// paramSwapSites: uses of a parameter (or named result) in the body of a function that has another parameter declared
+// with the same type expression; the use is replaced by that other parameter. Shadowing is ignored: a mutant that
+// does not compile is dropped by the type check of the analysis (it counts as killed by the compiler, not by a rule).
+func paramSwapSites(fd *ast.FuncDecl) []paramSwapSite {
+	group := map[string][]string{}
+	typeOf := map[string]string{}
+	add := func(fl *ast.FieldList) {
+		if fl == nil {
+			return
+		}
+		for _, f := range fl.List {
+			var buf bytes.Buffer
+			format.Node(&buf, token.NewFileSet(), f.Type)
+			ts := buf.String()
+			for _, nm := range f.Names {
+				if nm.Name == "_" {
+					continue
+				}
+				group[ts] = append(group[ts], nm.Name)
+				typeOf[nm.Name] = ts
+			}
+		}
+	}
+	add(fd.Type.Params)
+	var out []paramSwapSite
+	ast.Inspect(fd.Body, func(n ast.Node) bool {
+		if sel, ok := n.(*ast.SelectorExpr); ok {
+			// only the operand of a selector can be a parameter
+			ast.Inspect(sel.X, func(m ast.Node) bool {
+				if id, ok := m.(*ast.Ident); ok {
+					if ts, isP := typeOf[id.Name]; isP && len(group[ts]) > 1 {
+						for k, nm := range group[ts] {
+							if nm == id.Name {
+								out = append(out, paramSwapSite{id, group[ts][(k+1)%len(group[ts])]})
+							}
+						}
+					}
+				}
+				return true
+			})
+			return false
+		}
+		if kv, ok := n.(*ast.KeyValueExpr); ok {
+			ast.Inspect(kv.Value, func(m ast.Node) bool { return true })
+		}
+		id, ok := n.(*ast.Ident)
+		if !ok {
+			return true
+		}
+		ts, isP := typeOf[id.Name]
+		if !isP || len(group[ts]) < 2 {
+			return true
+		}
+		for k, nm := range group[ts] {
+			if nm == id.Name {
+				out = append(out, paramSwapSite{id, group[ts][(k+1)%len(group[ts])]})
+			}
+		}
+		return true
+	})
+	return out
 }
